@@ -4,6 +4,7 @@ CONSTANTS
   DevPerHandle = TRUE
   DevUnguardedFill = TRUE
   DevFillOnError = TRUE
+  DevKeyNoMethod = FALSE
   NR = 2
   MaxFaults = 1
 VIEW MView
